@@ -1,5 +1,6 @@
 import XlModel.Lemmas.Stream2
 import XlModel.Lemmas.StreamTree
+import XlModel.Lemmas.StreamCols
 /-!
 C11 — StreamWriter output is equivalent to the in-memory API.
 
@@ -216,6 +217,70 @@ theorem row_tags_ok :
        ("Ht", "xml:\"ht,attr\""), ("Hidden", "xml:\"hidden,attr,omitempty\""),
        ("CustomHeight", "xml:\"customHeight,attr,omitempty\""), ("OutlineLevel", "xml:\"outlineLevel,attr,omitempty\"")] := by
   decide
+
+/-! ## column widths and styles -/
+
+/-- **`SetColWidth` refines last-writer-wins.** `ws.setColWidth` / `flatCols` (col.go, transcribed and compared byte for
+byte through the `<cols>` element): seen as a map column → entry, the columns after the call are the columns before,
+updated pointwise on `lo..hi` with the new width (`customWidth`), keeping each column's style; other columns are untouched.
+Holds for every column list the stream writer can hold (`Good`: flat, or the single range the first call stores). -/
+theorem col_width_refines_map (cols : List Col) (hg : Good cols) (lo hi : Int) (w : Bytes) :
+    Good (wsSetColWidth cols lo hi w) ∧
+    ∀ j, absCols (wsSetColWidth cols lo hi w) j = Spec.setWidth (absCols cols) lo hi w j :=
+  wsSetColWidth_refines cols hg lo hi w
+
+/-- **`SetColStyle` refines last-writer-wins**: pointwise on `lo..hi` the new style, keeping each column's width (the
+default column width for a column that had no entry). -/
+theorem col_style_refines_map (cols : List Col) (hg : Good cols) (lo hi st : Int) :
+    Good (wsSetColStyle cols lo hi st) ∧
+    ∀ j, absCols (wsSetColStyle cols lo hi st) j = Spec.setStyle (absCols cols) lo hi st j :=
+  wsSetColStyle_refines cols hg lo hi st
+
+/-- The column style a cell inherits (`prepareCellStyle`, used by `cell_eq_memory` / `stream_eq_memory`) is the style
+of that map's entry for the cell's own column: the earlier "pointwise last-writer-wins column-style map" is no longer
+an assumption of the model but a consequence of `flatCols`. -/
+theorem col_style_lookup (cs : List Col) (hg : Good cs) (j : Int) :
+    colStyleAt cs j = match absCols cs j with | some o => o.style | none => 0 :=
+  colStyleAt_abs cs hg j
+
+/-- For every call sequence on a new stream writer: the column list stays well-shaped, the pre-data is always
+(fields 4..5) ++ `<cols>` of the current columns ++ `<sheetData>`, and what was written is the pre-data as it is
+(no column or pane call can change it afterwards). -/
+theorem cols_invariant (x : Ext) (cfg : Cfg) (prolog sv : Bytes) (n : Int) (ops : List Op) :
+    let s := (run x cfg (SW.init prolog (preData sv []) n) ops).1
+    Good s.colStyles ∧ (∃ sv', s.pre = preData sv' s.colStyles) ∧ (s.sheetWritten = true → s.preW = s.pre) :=
+  colInv_run x cfg ops _ ⟨Or.inl ⟨fun e he => by simp [SW.init] at he, by simp [SW.init]⟩, ⟨sv, rfl⟩, by simp [SW.init]⟩
+
+/-- **Element order of the whole worksheet part.** For any call sequence without Flush followed by one Flush the bytes
+are, in this order: prolog (XML header, worksheet start tag, `sheetPr`, `dimension`), `sheetViews`+`sheetFormatPr`
+(fields 4..5), the `<cols>` element of the current columns, `<sheetData>`, the accepted rows ascending, `</sheetData>`,
+fields 8..15, the merge block, fields 17..39, one table-parts element, the extension list, `</worksheet>`. -/
+theorem worksheet_part_order (x : Ext) (cfg : Cfg) (prolog sv : Bytes) (n : Int) (ops : List Op) (e : Epilog)
+    (hnf : ∀ op ∈ ops, op.isFlush = false) :
+    let s := (run x cfg (SW.init prolog (preData sv []) n) ops).1
+    ∃ sv', (run x cfg (SW.init prolog (preData sv []) n) (ops ++ [.flush e])).1.raw.abs =
+      prolog ++ sv' ++ renderCols s.colStyles ++ lit "<sheetData>" ++ s.log.flatMap (renderRow x)
+        ++ lit "</sheetData>" ++ bulk e (8, 15) ++ mergeBlock s ++ bulk e (17, 39)
+        ++ (if e.tableParts ≠ [] then e.tableParts else bulk e (40, 40)) ++ bulk e (41, 41) ++ lit "</worksheet>" := by
+  intro s
+  have hout := stream_output x cfg prolog (preData sv []) n ops e hnf
+  have hinv := cols_invariant x cfg prolog sv n ops
+  obtain ⟨_, ⟨sv', hpre⟩, hpw⟩ := hinv
+  refine ⟨sv', ?_⟩
+  have hm : mergeBlock (writeSheetData s) = mergeBlock s := by
+    unfold writeSheetData mergeBlock; split <;> rfl
+  have hpd : (if s.sheetWritten then s.preW else s.pre) = sv' ++ renderCols s.colStyles ++ lit "<sheetData>" := by
+    cases hb : s.sheetWritten with
+    | true => simp only [if_true]; rw [hpw hb, hpre]; rfl
+    | false => simp only [Bool.false_eq_true, if_false]; rw [hpre]; rfl
+  have hep : epilogBytes (writeSheetData s) e = lit "</sheetData>" ++ bulk e (8, 15) ++ mergeBlock (writeSheetData s)
+      ++ bulk e (17, 39) ++ (if e.tableParts ≠ [] then e.tableParts else bulk e (40, 40)) ++ bulk e (41, 41)
+      ++ lit "</worksheet>" := rfl
+  have hout' : (run x cfg (SW.init prolog (preData sv []) n) (ops ++ [.flush e])).1.raw.abs =
+      prolog ++ (if s.sheetWritten then s.preW else s.pre) ++ s.log.flatMap (renderRow x)
+        ++ epilogBytes (writeSheetData s) e := hout
+  rw [hout', hep, hm, hpd]
+  simp only [List.append_assoc]
 
 /-! ## Flush: the part after `sheetData` in schema order -/
 
